@@ -24,24 +24,34 @@ type snapshot struct {
 	text    string
 }
 
-// contested: orphans sharing a redeemed outpoint with another orphan.
-func (sn snapshot) contested() []int {
-	var l []int
-	for _, ids := range sn.byPrev {
-		if len(ids) >= 2 {
-			l = append(l, ids...)
+// ndAfter: which of several orphans redeeming the same outpoint Go's map
+// iteration tries first is not observable.  Both sides stop comparing ("nd")
+// when, inside an operation that runs processOrphans, an orphan leaves the
+// orphan pool that shared a redeemed outpoint with another orphan AND that
+// outpoint belongs to a transaction processOrphans walked (the operation's own
+// transactions or anything that entered the pool during the operation).
+func ndAfter(before, after snapshot, opTxs []int) bool {
+	walked := map[int]bool{}
+	for _, id := range opTxs {
+		walked[id] = true
+	}
+	for id := range after.pool {
+		if !before.pool[id] {
+			walked[id] = true
 		}
 	}
-	return l
-}
-
-// ndAfter: which contested orphan Go's map iteration tries first is not
-// observable; the comparison stops (both sides print "nd") once one of them
-// leaves the orphan pool inside an operation that runs processOrphans.
-func ndAfter(before, after snapshot) bool {
-	for _, id := range before.contested() {
-		if !after.orphans[id] {
-			return true
+	for k, ids := range before.byPrev {
+		if len(ids) < 2 {
+			continue
+		}
+		txid, _ := strconv.Atoi(strings.Split(k, ".")[0])
+		if !walked[txid] {
+			continue
+		}
+		for _, id := range ids {
+			if !after.orphans[id] {
+				return true
+			}
 		}
 	}
 	return false
@@ -465,6 +475,7 @@ func (r *runner) run() string {
 		mp := r.e.pool
 		before := r.last
 		runsOrphans := false
+		var opTxs []int
 		switch {
 		case f[0] == "P" && len(f) == 7:
 			d, ok := r.tx(f[1])
@@ -557,6 +568,7 @@ func (r *runner) run() string {
 				return "bad-op"
 			}
 			runsOrphans = true
+			opTxs = []int{d.id}
 			res = "a:" + r.descIDs(mp.ProcessOrphans(d.tx))
 		case f[0] == "X" && len(f) == 2:
 			d, ok := r.tx(f[1])
@@ -582,6 +594,7 @@ func (r *runner) run() string {
 			events = nil
 			r.e.lastTs = bo.ts
 			runsOrphans = true
+			opTxs = bo.txs
 			isMain, isOrphan, err := r.e.chain.ProcessBlock(blk, blockchain.BFNone)
 			if err != nil || !isMain || isOrphan {
 				if debug {
@@ -667,7 +680,13 @@ func (r *runner) run() string {
 					outs = append(outs, "reorg-order?")
 					return strings.Join(outs, "|")
 				}
-				if want == 'C' && ndAfter(r.last, ev.sn) {
+				var btxs []int
+				if want == 'C' {
+					if bo, err := parseBlockOp(strings.Split(r.ops[i+1+j], ":")); err == nil {
+						btxs = bo.txs
+					}
+				}
+				if want == 'C' && ndAfter(r.last, ev.sn, btxs) {
 					outs = append(outs, "nd")
 					return strings.Join(outs, "|")
 				}
@@ -689,7 +708,7 @@ func (r *runner) run() string {
 			return "bad-op"
 		}
 		line := r.after(res)
-		if runsOrphans && ndAfter(before, r.last) {
+		if runsOrphans && ndAfter(before, r.last, opTxs) {
 			outs = append(outs, "nd")
 			break
 		}
